@@ -31,6 +31,9 @@ class PathCtx:
         self.observations = []
         self.sample_every = sample_every
         self.fresh = 0
+        self.nondet = []
+        self.cur = None
+        self.fork_sites = {}
 
     # -------------------------------------------------------------- solver plumbing
     def _check(self, *assumptions):
@@ -100,9 +103,16 @@ class PathCtx:
         if forked:
             self.alts.append(self.trace + [('b', not mv, True)])
             self.nsym_decisions += 1
+            self.note_fork()
         self.solver.add(cond if mv else z3.Not(cond))  # current model still satisfies it
         self.trace.append(('b', mv, forked))
         return mv
+
+    def note_fork(self):
+        fr = self.cur
+        if fr is not None:
+            k = '%s bb%d' % (fr.fn['name'], fr.bb)
+            self.fork_sites[k] = self.fork_sites.get(k, 0) + 1
 
     def implied(self, cond):
         """is cond a consequence of the path condition?"""
@@ -146,9 +156,54 @@ class PathCtx:
                     raise Unsupported('concretisation of a value with more than 300 feasible values')
                 self.alts.append(self.trace + [('ne', val)])
                 self.nsym_decisions += 1
+                self.note_fork()
             self.solver.add(expr == val)
             self.trace.append(('v', val))
             return val
+
+    def nondet_choice(self, tag, n):
+        """an environment choice in range(n) that is not a harness input (hash order, sort ties)"""
+        if n <= 1:
+            return 0
+        if self.concrete is not None:
+            c = 0
+        else:
+            v = z3.Int('%s?%d' % (tag, self.fresh))
+            self.fresh += 1
+            self.add(z3.And(v >= 0, v < n))
+            c = self.concretize(v)
+        self.nondet.append((tag, c, n))
+        return c
+
+    def concretize_real(self, expr):
+        """like concretize, for a Real-sorted term; returns a Fraction"""
+        from fractions import Fraction
+        n = 0
+        while True:
+            if self.pos < len(self.prefix):
+                e = self._next('v')
+                self.trace.append(e)
+                q = Fraction(e[1][0], e[1][1])
+                c = z3.RealVal(e[1][0]) / e[1][1]
+                if e[0] == 'v':
+                    self.add(expr == c)
+                    return q
+                self.add(expr != c)
+                n += 1
+                continue
+            m = self.get_model()
+            val = m.eval(expr, model_completion=True)
+            q = Fraction(val.numerator_as_long(), val.denominator_as_long())
+            c = z3.RealVal(q.numerator) / q.denominator
+            if self._check(expr != c):
+                n += 1
+                if n > 300:
+                    raise Unsupported('concretisation of a real with more than 300 feasible values')
+                self.alts.append(self.trace + [('ne', (q.numerator, q.denominator))])
+                self.nsym_decisions += 1
+            self.solver.add(expr == c)
+            self.trace.append(('v', (q.numerator, q.denominator)))
+            return q
 
     # -------------------------------------------------------------- harness runtime
     def fresh_input(self, tag, lo, hi):
